@@ -113,6 +113,11 @@ type execCtx struct {
 	grace      int
 	victimRuns int
 	starved    bool
+
+	// cancellation: the execution is cancelled at this scheduling step (-1 = never)
+	cancelAt   int
+	cancelDone bool
+	cancelOK   bool // the canceler returned true: no callback may follow
 }
 
 // curExec is the execution the harness SCORE belongs to (its instances are
@@ -123,7 +128,7 @@ var curExec *execCtx
 var debugStacks = os.Getenv("EXECSIM_DEBUG") != ""
 
 func newExecCtx(rc *kit.RunCtx, name string, active bool, level, ntx int) *execCtx {
-	x := &execCtx{name: name, active: active, level: level, rc: rc, victim: -1,
+	x := &execCtx{name: name, active: active, level: level, rc: rc, victim: -1, cancelAt: -1,
 		parked: map[int]*park{}, notes: map[int][]string{}}
 	x.recs = make([]*txRec, ntx)
 	for i := range x.recs {
@@ -324,7 +329,8 @@ func (x *execCtx) drive(tr module.Transition) execOutcome {
 	cb := newExecCB()
 	curExec = x
 	x.markBaseline()
-	if _, err := tr.Execute(cb); err != nil {
+	canceler, err := tr.Execute(cb)
+	if err != nil {
 		out.execErr = err
 		out.finished = true
 		return out
@@ -333,6 +339,13 @@ func (x *execCtx) drive(tr module.Transition) execOutcome {
 	for {
 		x.settle()
 		x.flushNotes()
+		if x.cancelAt >= 0 && !x.cancelDone && x.steps >= x.cancelAt && !out.finished {
+			// the block manager gives the execution up (e.g. the consensus round moved on) at this very
+			// scheduling point; whatever is already running winds down
+			x.cancelDone = true
+			x.cancelOK = canceler()
+			rc.Event("%s CANCEL at step %d -> %v", x.name, x.steps, x.cancelOK)
+		}
 		if debugStacks {
 			d, _ := x.describeBlocked()
 			rc.Event("DEBUG %s", d)
@@ -357,7 +370,7 @@ func (x *execCtx) drive(tr module.Transition) execOutcome {
 			}
 		}
 		keys := x.parkedKeys()
-		if out.finished {
+		if out.finished || x.cancelOK {
 			// drain: goroutines that were already dispatched when the block failed
 			if len(keys) == 0 {
 				return out
